@@ -39,7 +39,7 @@ Bad(e) ==
          ELSE IF E = {} THEN {"a well-formed program was rejected (" \o e.cls \o ")"}
          ELSE IF \/ <<e.cls, <<e.key[1], e.key[2], e.key[3]>>>> \in E
                  \* a defect of `term = pattern` of a match case may be reported at the line of the term
-                 \/ (e.key[2] = 0 /\ \E x \in E : x[1] = e.cls /\ x[2][1] = e.key[1] /\ x[2][3] = 0)
+                 \/ (e.key[2] = 0 /\ \E er \in E : er[1] = e.cls /\ er[2][1] = e.key[1] /\ er[2][3] = 0)
               THEN {} ELSE {"the reported error (" \o e.cls \o ") is not a defect of the program at that line"}
     [] e.ev = "mutant" ->
          IF e.rc \notin {0, 1} THEN {"the compiler crashed (exit status " \o ToString(e.rc) \o ")"}
